@@ -57,7 +57,15 @@ func ParseProgram(fsys fs.FS) (*ast.Tree, error) {
 			if last == 0 {
 				return nil, errors.New("cannot find main package")
 			}
-			path := imports[last-1].Tree.Path
+			// The package that imports n is the nearest parsed package
+			// that precedes it: the imports between them are not parsed yet.
+			var path string
+			for i := last - 1; i >= 0; i-- {
+				if imports[i].Tree != nil {
+					path = imports[i].Tree.Path
+					break
+				}
+			}
 			return nil, &SyntaxError{path, *n.Position, fmt.Sprintf("cannot find package %q", n.Path)}
 		}
 		trees[n.Path] = n.Tree
